@@ -80,7 +80,27 @@ class Forcer:
         patch(Instruction, "_is_condition_met", _cond)
 
         b = self.b
-        if b["phase"] == "failed" and b["exc"] in ("InvalidParameter", "RuntimeError") and b["stage"] in ("resolve", "validate", "step"):
+        if b["phase"] == "failed" and b["exc"] == "InvalidParameter" and b["pc"] == 0 and b["nsteps"] == 0:
+            # up-front parameter validation fails (before anything runs): inject it into the first resolved instruction
+            from piquasso.api.exceptions import InvalidParameter
+            cand = [x for x in instrs if x._is_resolved()]
+            if not cand:
+                raise NotImplementedError("no resolved instruction to fail up front")
+            victim = cand[-1]
+            cls = type(victim)
+            base_validate = cls._validate
+
+            def _validate_up(ins, connector):
+                if ins is victim and f.instr == 0:
+                    raise InvalidParameter("injected by the verification harness (up-front validation)")
+                return base_validate(ins, connector)
+
+            if "_validate" in cls.__dict__:
+                patch(cls, "_validate", _validate_up)
+            else:
+                cls._validate = _validate_up
+                self._undo.append((cls, "_validate", None))
+        elif b["phase"] == "failed" and b["exc"] in ("InvalidParameter", "RuntimeError") and b["stage"] in ("resolve", "validate", "step"):
             target = (b["pc"] + self.off, b["bidx"], b["stage"])
             from piquasso.api.exceptions import InvalidParameter
             old_res = Instruction.__dict__["_resolve_params"]
